@@ -324,8 +324,10 @@ def writeout_confinement(ctx):
 # ---------------------------------------------------------------------------------------
 # O2: the refusal check — a source directory inside (or equal to) the output directory stops the run before anything is deleted
 # ---------------------------------------------------------------------------------------
-SRC_SPELL = ["./src", "src/lib", "./code/../src", "/proj/src"]
-OUT_SPELL = ["./doc", "doc/../out", "./src", "src/..", ".", "..", "./src/doc", "/proj/src", "link", "link/sub", "/", "src/lib", "src/lib/..", "SRC"]
+SRC_SPELL = ["./src", "src/lib", "./code/../src", "/proj/src", "/proj/code/../src"]
+OUT_SPELL = ["./doc", "doc/../out", "./src", "src/..", ".", "..", "./src/doc", "/proj/src", "link", "link/sub", "/", "src/lib", "src/lib/..", "SRC",
+             # absolute paths are normalised like relative ones
+             "/proj/doc/../src", "/proj/link", "/proj/src/lib/../..", "/proj/doc/../out"]
 LINKS19 = {"/proj/link": "/proj/src"}
 
 
